@@ -68,17 +68,34 @@ impl TryFrom<&SnmpOid<'_>> for String {
 
     fn try_from(value: &SnmpOid) -> Result<Self, Self::Error> {
         let mut r = String::with_capacity(value.0.len() * 5);
-        let mut iter = value.0.iter();
-        // First two subelements
-        let first = iter.next().ok_or(SnmpError::InvalidData)?;
-        write!(r, "{}.{}", first / 40, first % 40).map_err(|_| SnmpError::InvalidData)?;
+        if value.0.is_empty() {
+            return Err(SnmpError::InvalidData);
+        }
+        // X.690 pp 8.19.4: the first subidentifier is 40 * X + Y,
+        // where X is 0, 1 or 2 and Y is not limited when X is 2.
+        // It may take several octets.
+        let mut is_first = true;
         let mut b = 0u32;
-        for c in iter {
+        for c in value.0.iter() {
             b = (b << 7) + ((*c as u32) & 0x7f);
             if c & 0x80 == 0 {
-                write!(r, ".{}", b).map_err(|_| SnmpError::InvalidData)?;
+                if is_first {
+                    let (x, y) = match b {
+                        0..=39 => (0, b),
+                        40..=79 => (1, b - 40),
+                        _ => (2, b - 80),
+                    };
+                    write!(r, "{}.{}", x, y).map_err(|_| SnmpError::InvalidData)?;
+                    is_first = false;
+                } else {
+                    write!(r, ".{}", b).map_err(|_| SnmpError::InvalidData)?;
+                }
                 b = 0;
             }
+        }
+        if is_first {
+            // Unterminated first subidentifier
+            return Err(SnmpError::InvalidData);
         }
         Ok(r)
     }
